@@ -1,7 +1,7 @@
 (* C07 property theorems. Statements only; proofs are `exact lemma`. Third-party compressors appear as universally
    quantified functions with their round-trip behaviour as premises. All theorems are for every input (no bound). *)
 From Coq Require Import ZArith List Bool Lia.
-From OG Require Import C07.Model C07.ModelRows C07.ModelFile C07.ModelPreAgg C07.ModelCMSelf C07.ModelStats C07.ModelMerge C07.ModelWhole C07.ProofsPreAgg C07.ProofsCMSelf C07.ProofsStats C07.ProofsMerge C07.ProofsWhole C07.ProofsFile C07.ProofsRows C07.ProofsBase C07.ProofsS8 C07.ProofsInt C07.ProofsBool C07.ProofsFloat C07.ProofsString C07.ProofsSeg.
+From OG Require Import C07.Model C07.ModelRows C07.ModelFile C07.ModelPreAgg C07.ModelCMSelf C07.ModelStats C07.ModelMerge C07.ModelWhole C07.ProofsPreAgg C07.ProofsCMSelf C07.ProofsStats C07.ProofsMerge C07.ProofsMerge2 C07.ProofsWhole C07.ProofsWhole2 C07.ProofsFile C07.ProofsRows C07.ProofsBase C07.ProofsS8 C07.ProofsInt C07.ProofsBool C07.ProofsFloat C07.ProofsString C07.ProofsSeg.
 Import ListNotations.
 Open Scope Z_scope.
 
@@ -528,3 +528,26 @@ Example C07_ex_whole_file :
 Proof.
   intros mode [<-|[<-|[<-|[<-|[]]]]]; (split; [vm_compute; reflexivity|]); (split; [ex_placed|vm_compute; reflexivity]).
 Qed.
+
+(* the segment layer inside the same file: every column segment written into the data area is found at the (offset, size)
+   the writer's layout gives it - the values a chunk meta records for it - and decodes to its null pattern and block *)
+Theorem C07_whole_file_segments : forall (bcomp : Z -> list Z -> list Z) mode H preD pieces postD blks B I t,
+  let D := preD ++ concat (map piece_bytes pieces) ++ postD in
+  Forall2 (fun p e =>
+             match p with
+             | PSeg ty m block rows =>
+                 seg_applicable m rows = true ->
+                 seg_dec ty (len rows) (slice (fst e) (snd e) (file_bytes bcomp mode H D blks B I t))
+                 = Some (validity rows, seg_payload m block rows)
+             | PRaw _ => True
+             end)
+          pieces (lay (len H + len preD) (map piece_bytes pieces)).
+Proof. exact whole_file_segments. Qed.
+Print Assumptions C07_whole_file_segments.
+
+(* the exact merge (the other block's min / max handed over as int64, props/C07/fix4.patch) needs no side condition *)
+Theorem C07_int_merge_exact_is_stat_of_union : forall a b A B,
+  Forall Wp A -> Forall Wp B -> is_stat_of a A -> is_stat_of b B ->
+  is_stat_of (int_merge (fun v => v) a b) (A ++ B).
+Proof. exact int_merge_exact_is_stat_of_union. Qed.
+Print Assumptions C07_int_merge_exact_is_stat_of_union.
